@@ -393,6 +393,13 @@ let fixed_scenarios : (string * (string * M.node list) list * (string * M.value)
       [ "tm", M.VMap (M.MIntStr, [ (vint 2, vstr "two"); (vint 10, vstr "ten") ]); "tss", M.VMap (M.MStrStr, [ (vstr "k", vstr "v") ]);
         "arr", M.VList (M.LArray, [ vint 3; vint 1; vint 2 ]); "pn", M.VPtr None; "ps", M.VPtr (Some (vstr "pointee")); "fn", M.VOpaque (nat_of_int 1);
         "recs", vlist [ vmap [ ("name", vstr "n0") ] ] ], None;
+    "param-hides-macro", [ "main", [ macro "a" [] [ text "MA" ]; macro "m" [ ("a", None) ] [ pv "a"; print (call "a" []) ]; print (call "m" [ lit_str "arg" ]);
+                        set "a" (lit_str "var"); pv "a"; print (call "a" []) ] ], [], None;
+    "self-macro-before-function", [ "main", [ macro "max" [ ("x", None) ] [ text "macro-max"; pv "x" ]; print (M.EModCall (var "_self", bs "max", [ lit_int 1; lit_int 2 ]));
+                        print (M.EModCall (var "_self", bs "min", [ lit_int 1; lit_int 2 ])); print (call "max" [ lit_int 3 ]) ] ], [], None;
+    "sibling-macros-from", [ "lib", [ macro "helper" [ ("x", None) ] [ text "h"; pv "x" ]; macro "b" [] [ print (call "helper" [ lit_int 1 ]); print (M.EModCall (var "_self", bs "helper", [ lit_int 2 ])) ] ];
+                        "main", [ macro "helper" [ ("x", None) ] [ text "MAIN" ]; M.NFrom (lit_str "lib", [ (bs "b", bs "b") ]); print (call "b" []); print (call "helper" [ lit_int 0 ]) ] ], [], None;
+    "sb-include-inherited-vars", [ "q", [ pv "x"; pv "y"; pv "w" ]; "p", [ set "y" (lit_str "Y"); inc ~sb:true ~withs:(Some (hash [ ("w", var "x") ])) "q" ]; "main", [ inc "p" ] ], [ "x", vstr "X" ], Some ([ "upper" ], [ "range" ]);
     "hash-and-items", [ "main", [ set "h" (hash [ ("a", lit_int 1) ]); print (M.EItem (var "h", lit_str "a")); print (attr (var "h") "a"); print (M.EItem (M.EArr [ lit_int 5; lit_int 6 ], lit_str "1"));
                         print (M.EItem (var "ti", M.EBin (M.BAdd, lit_int 0, lit_int 1))); print (M.EItem (var "tm", lit_int 2)); print (attr (var "tss") "k") ] ],
       [ "ti", M.VList (M.LInts, [ vint 4; vint 5 ]); "tm", M.VMap (M.MIntStr, [ (vint 2, vstr "two") ]); "tss", M.VMap (M.MStrStr, [ (vstr "k", vstr "v") ]) ], None ]
